@@ -5,6 +5,7 @@
 mod enc;
 mod gf256;
 mod obj;
+mod params;
 mod util;
 
 fn main() {
@@ -19,6 +20,8 @@ fn main() {
         "enc" => enc::run(&opts),
         "objreplay" => obj::replay(&opts),
         "objlog" => obj::log(&opts),
+        "paramlog" => params::log(&opts),
+        "wrapreplay" => params::replay(&opts),
         other => {
             eprintln!("unknown command {other}");
             std::process::exit(2);
